@@ -121,6 +121,18 @@ PROPS = {
         text="Every style attribute is taken from the column its Format line assigns under generated column permutations; the writer is checked by two decoders and by the byte-level idempotence law.",
         note="Trusted: renderer and independent decoder in the harness, rapid.",
         design="5/C04"),
+    "C05": P(
+        "TestC05", "exploration",
+        "read: case = (ground-truth STL model, ignore-programme-start option); model = GSI fields (printable ASCII within field widths, dates, language codes mapped and unmapped), frame rate 25/30, display standard 0/1/2, programme-start timecode, 0..6 TTI blocks with timecodes h:m:s:f (pool + uniform, at or after the programme start), VP, JC 0..3, 1..3 rows of 1..3 runs, text over the Latin table (atoms, any single-byte graphic character, diacritic x letter pairs), open-subtitling italic/underline/boxing code sequences or teletext colour / double-height codes inside start/end boxes, blanks around runs, interleaved and trailing user-data blocks (EBN 0xFE); the harness encodes GSI/TTI and ISO 6937 itself. "
+        "write: cue lists with metadata present / nil / inherited from another format; cycle: read then write, TCI/TCO bytes compared. Exhaustive passes: every single-byte graphic character and all 13 diacritics x 52 letters (read under DSC 0 and 1, written under DSC 0), every frame number at both rates with three programme-start offsets. Non-trivial = >=1 cue and >=1 of {30 fps, DSC != 0, TCP != 0, diacritic, style code, user-data block, multi-row}; distinct = hash of the case.",
+        ["inter-run blanks are not part of the denotation (runs compared with white space removed); EBN 0xFF for subtitle blocks, comment flag 0, cumulative status 0; only the Latin code table (the only one the library implements)",
+         "boundaries: |got - exact| < 1 ns where exact = (h,m,s + f/rate) - programme start, in math/big",
+         "written cue instants lie inside their frame (exact frame instant rounded up to the ns); the library's documented defaults apply when the list carries no STL metadata",
+         "known findings (known_findings.json): '$' written as 0x24; text under a teletext display standard is written without start box - for those two classes exactly the affected comparison is skipped / the character is not generated, and counted"],
+        shards=(4, 16), technique="model-based property testing with an independent Tech 3264 encoder/decoder (own GSI/TTI layout, own ISO 6937 table, exact rational timecodes); round trip, differential decoding and read-write timecode invariance",
+        text="Files are encoded by the harness from a ground-truth model, so reader fidelity (metadata, timecodes to < 1 ns, rows, runs, styles, diacritic composition) is decided against ground truth; writer output is decoded by the library and by the harness's own decoder; the character table and the frame-number domain are enumerated completely.",
+        note="Trusted: the harness's Tech 3264 field table and ISO 6937 table (typed from the standard), x/text NFC, rapid.",
+        design="5/C05", exhaustive_note=True),
 }
 
 # Properties deliberately not claimed (reason each); anything else missing from PROPS is work in progress.
